@@ -73,6 +73,15 @@ def domain(tier, seed):
         if tier != "quick":
             ns.append((6, "sample", 2000))
         dom.append((10 + k, nm, b, ns))
+    # small bases taken deep (complexity 7): nested log/exp/power rewrites need more nodes than the shipped sets reach exhaustively
+    DEEP = [("deep_log_inv", [["x", "a"], ["log_abs", "inv"], ["+", "*", "-"]]),
+            ("deep_sqrt_exp", [["x", "a"], ["sqrt_abs", "exp"], ["+", "*", "/"]]),
+            ("deep_exp_inv_log", [["x", "a"], ["exp", "inv", "log_abs"], ["+", "*", "-"]]),
+            ("deep_square_cube", [["x", "a"], ["square", "cube", "inv"], ["+", "*"]])]
+    for k, (nm, b) in enumerate(DEEP):
+        # exp towers of height 5 overflow at every sample point (only one side of 1/e^y = e^-y stays representable): keep that basis at <= 6
+        ns = [(n, "enum", 30000) for n in range(5, 7 if "exp" in b[1] and "inv" in b[1] else 8)]
+        dom.append((50 + k, nm, b, ns))
     for k, (nm, b) in enumerate(random_bases(seed, 6 if tier == "quick" else 16)):
         ns = [(n, "enum", cap) for n in range(1, (4 if tier == "quick" else 5) + 1)]
         if tier != "quick":
